@@ -113,8 +113,10 @@ static void tab_env()
   // the unit table: "1" followed by every string of length <= 2 over [a-z]
   {
     std::vector<std::string> in;
+    for (const char *w : {"1", "1ns", "1us", "1ms", "1s", "1m", "1h", "1NS", "1Ms", "1S", "1 s", "1s ", "1sec", "1min", "1hr", "1nss", "1mss", "1uss",
+                          "1d", "1n", "1u", "1sm", "1hs", "1sn"})
+      in.push_back(w);
     for (const auto &u : tab::strings_upto("abcdefghijklmnopqrstuvwxyz", 2)) in.push_back("1" + u);
-    for (const char *w : {"1NS", "1Ms", "1S", "1 s", "1s ", "1sec", "1min", "1hr", "1nss", "1mss", "1uss"}) in.push_back(w);
     tab::pairs("envDurUnit", in, env_dur);
   }
   // digit / white-space / sign acceptance per byte
